@@ -49,16 +49,33 @@ Print Assumptions C12_closes_for_good.
 (* Pending output and only blocked send attempts since u: after any history and
    then any number of passes in which the client is silent and the kernel
    accepts nothing from the send attempts, the pass at tyme >= u + T closes the
-   connection; the blocked attempts changed neither the deadline reference nor
-   the pending output. *)
+   connection; the blocked attempts did not change the deadline reference (nor
+   does an app that produces its response, or empty results, meanwhile). *)
 Theorem C12_closes_blocked : forall T t0 R sched quiet now a cap,
   0 < T -> no_req sched = true -> forallb blocked quiet = true -> is_wind a = false ->
   let c := run R (accept T t0) sched in
   last c + T <= now ->
   closed (pass R (now, a, cap) (run R c quiet)) = true /\
-  (closed (run R c quiet) = false -> last (run R c quiet) = last c /\ pend (run R c quiet) = pend c).
+  (closed (run R c quiet) = false -> last (run R c quiet) = last c).
 Proof. exact closes_blocked. Qed.
 Print Assumptions C12_closes_blocked.
+
+(* The timeout decision does not depend on a response being in progress: for an open connection
+   whose tymer has expired, a service pass closes it as timed out whatever the Responder state
+   (not ended, empty results still to come, bytes pending); and when the tymer has not expired (or
+   the tymeout is <= 0) no response state makes the pass time it out.  [C12_closes] already covers
+   reachable states with a deferred or never finishing app (ReqDefer is allowed in its history). *)
+Theorem C12_expiry_ignores_response : forall R now a cap c b w n,
+  is_wind a = false -> closed c = false -> 0 < tmo c -> sp c <= now ->
+  pass R (now, a, cap) (set_resp b w (set_pend n c)) = close true (set_resp b w (set_pend n c)).
+Proof. exact expiry_ignores_response. Qed.
+Print Assumptions C12_expiry_ignores_response.
+
+Theorem C12_no_expiry_ignores_response : forall R now a cap c b w n,
+  closed c = false -> (0 <? tmo c) && expired now c = false ->
+  timedout c = false -> timedout (pass R (now, a, cap) (set_resp b w (set_pend n c))) = false.
+Proof. exact no_expiry_ignores_response. Qed.
+Print Assumptions C12_no_expiry_ignores_response.
 
 (* A connection for which every service pass (while it is open) comes less than T
    after the latest pass in which bytes moved is never closed for idleness, at
@@ -131,6 +148,18 @@ Example C12_wind_example :
   busy 225 5 (accept 5 0) late /\ closed (run 225 (accept 5 0) late) = false /\
   closed (pass 225 (108, Quiet, 0%N) (run 225 (accept 5 0) late)) = true.
 Proof. vm_compute. repeat split; intros; reflexivity || discriminate. Qed.
+
+(* T = 3: a non-persistent request at 0 to an app that never finishes (empty results for ever): no byte
+   moves after 0, the Responder is still in progress at 2, the pass at 3 closes the connection; an app
+   that answers after 2 empty results to a reader that takes everything is closed when done, not timed out. *)
+Example C12_deferred_example :
+  let never := [(0, ReqDefer 1 1000000, 1000%N); (1, Quiet, 1000%N); (2, Quiet, 1000%N)] in
+  let later := [(0, ReqDefer 1 2, 1000%N); (1, Quiet, 1000%N); (2, Quiet, 1000%N); (3, Quiet, 1000%N)] in
+  no_req never = true /\ last (run 225 (accept 3 0) never) = 0 /\
+  closed (run 225 (accept 3 0) never) = false /\ inprog (run 225 (accept 3 0) never) = true /\
+  timedout (pass 225 (3, Quiet, 1000%N) (run 225 (accept 3 0) never)) = true /\
+  closed (run 225 (accept 3 0) later) = true /\ timedout (run 225 (accept 3 0) later) = false.
+Proof. vm_compute. repeat split. Qed.
 
 Example C12_windows_example :
   let sched := [(0, Rx 1, 0%N); (3, Rx 1, 0%N); (6, Rx 2, 0%N); (9, Quiet, 0%N); (9, Rx 1, 0%N); (12, Quiet, 0%N)] in
